@@ -16,8 +16,11 @@ import (
 	k8sschedulingv1 "k8s.io/api/scheduling/v1"
 	"k8s.io/apimachinery/pkg/api/resource"
 	metav1 "k8s.io/apimachinery/pkg/apis/meta/v1"
+	k8sruntime "k8s.io/apimachinery/pkg/runtime"
 	"k8s.io/apimachinery/pkg/types"
 	"k8s.io/client-go/kubernetes"
+	k8sfake "k8s.io/client-go/kubernetes/fake"
+	k8stesting "k8s.io/client-go/testing"
 	"k8s.io/client-go/tools/record"
 
 	"verif/harness/internal/sched"
@@ -37,9 +40,10 @@ const EpsUnits = 2
 // Queue is a FIFO without duplicates.  AddRateLimited / AddAfter add at once:
 // a retried key waits for the next drain instead of for a timer.
 type Queue struct {
-	mu    sync.Mutex
-	items []string
-	adds  int
+	mu       sync.Mutex
+	items    []string
+	adds     int
+	requeues map[string]int // what a rate limiter counts: AddRateLimited since the last Forget
 }
 
 func (q *Queue) Add(item string) {
@@ -69,10 +73,22 @@ func (q *Queue) ShutDown()                             {}
 func (q *Queue) ShutDownWithDrain()                    {}
 func (q *Queue) ShuttingDown() bool                    { return false }
 func (q *Queue) AddAfter(item string, _ time.Duration) { q.Add(item) }
-func (q *Queue) AddRateLimited(item string)            { q.Add(item) }
-func (q *Queue) Forget(string)                         {}
-func (q *Queue) NumRequeues(string) int                { return 0 }
-func (q *Queue) Adds() int                             { q.mu.Lock(); defer q.mu.Unlock(); return q.adds }
+func (q *Queue) AddRateLimited(item string) {
+	q.mu.Lock()
+	if q.requeues == nil {
+		q.requeues = map[string]int{}
+	}
+	q.requeues[item]++
+	q.mu.Unlock()
+	q.Add(item)
+}
+func (q *Queue) Forget(item string) { q.mu.Lock(); delete(q.requeues, item); q.mu.Unlock() }
+func (q *Queue) NumRequeues(item string) int {
+	q.mu.Lock()
+	defer q.mu.Unlock()
+	return q.requeues[item]
+}
+func (q *Queue) Adds() int { q.mu.Lock(); defer q.mu.Unlock(); return q.adds }
 func (q *Queue) Keys() []string {
 	q.mu.Lock()
 	defer q.mu.Unlock()
@@ -311,6 +327,7 @@ type Ctl struct {
 	PreBinder *PreBinder
 	Status    *StatusUpdater
 	gone      map[int64]bool    // deleted on the API server, delete notification not delivered yet
+	GetFails  bool              // every GET of a pod fails (API server unreachable)
 	pods      map[int64]*v1.Pod // informer store: last delivered version
 	pgs       map[int64]*schedulingv1beta1.PodGroup
 	queues    map[int64]*schedulingv1beta1.Queue
@@ -330,6 +347,13 @@ func New() *Ctl {
 	c.SC = cache.NewCustomMockSchedulerCache("volcano", c.Binder, c.Evictor, c.Status, nil, &record.FakeRecorder{})
 	c.SC.RegisterBinder("verif-prebinder", c.PreBinder)
 	c.SC.VerifSetErrTasksQueue(c.ErrQ)
+	// the API server can be made unreachable for the GET syncTask issues
+	c.SC.Client().(*k8sfake.Clientset).PrependReactor("get", "pods", func(k8stesting.Action) (bool, k8sruntime.Object, error) {
+		if c.GetFails {
+			return true, nil, fmt.Errorf("scripted: API server unreachable")
+		}
+		return false, nil, nil
+	})
 	c.SC.DeletedJobs = c.DelQ
 	return c
 }
@@ -475,6 +499,16 @@ func (c *Ctl) DrainCleanup() {
 		c.SC.VerifProcessCleanupJob()
 	}
 }
+
+// DrainResyncFailing: k drains during which every GET fails; each failed sync re-queues its key
+func (c *Ctl) DrainResyncFailing(k int64) {
+	c.GetFails = true
+	for i := int64(0); i < k; i++ {
+		c.DrainResync()
+	}
+	c.GetFails = false
+}
+
 func (c *Ctl) DrainResync() {
 	for n := c.ErrQ.Len(); n > 0; n-- {
 		c.SC.VerifProcessResyncTask()
